@@ -679,6 +679,24 @@ fn maybe_runtype_any_of_discriminated(
                             })
                             .collect::<BTreeSet<_>>();
 
+                        // a value that every member admits does not discriminate: dispatching on it would
+                        // hand the same union to the printer again, without end
+                        let shared_by_all = discriminator_strings.iter().any(|s| {
+                            object_vs.iter().all(|vs| {
+                                let value = vs
+                                    .get(&discriminator)
+                                    .expect("we already checked the discriminator exists")
+                                    .inner();
+                                extract_union(value, named_schemas)
+                                    .into_iter()
+                                    .filter_map(|it| it.extract_single_string_const())
+                                    .any(|it| it == *s)
+                            })
+                        });
+                        if shared_by_all {
+                            continue;
+                        }
+
                         return Some(runtype_any_of_discriminated(
                             original_runtype,
                             flat_values,
